@@ -17,7 +17,9 @@
            (disconnection collision);
      D09f  LE / enhanced client channels are filed in le_coc_channels by the response handler
            (not when the opening coroutine resumes); in this model both are one step;
-     D07   enhanced server channels are filed in le_coc_channels under the peer's CID.
+     D07   enhanced server channels are filed in le_coc_channels under the peer's CID;
+     D08   (C08) a Configure Response "unacceptable parameters" makes the channel adopt a
+           suggested MTU / FCS value and send a complete Configure Request, or nothing.
 
    One manager is modelled; its peers are the environment: an EVENT is an API call made by
    the application, a signalling frame received on a connection (ANY frame: the peer is
@@ -224,7 +226,7 @@ Inductive frame :=
 | FConnReq (id psm scid : Z)
 | FConnRsp (id dcid scid result : Z)
 | FConfReq (id dcid rfc : Z) (bad : bool)
-| FConfRsp (id scid result : Z)
+| FConfRsp (id scid result sugg : Z)   (* sugg: the options carry 0 nothing usable, 1 an MTU / FCS-off value, 2 FCS on *)
 | FDiscReq (id dcid scid : Z)
 | FDiscRsp (id dcid scid : Z)
 | FLeReq (id psm scid credits : Z)
@@ -628,18 +630,18 @@ Definition recv_conf_req (m : mgr) (h id dcid rfc : Z) (bad : bool) : mgr * list
                   then hupd (cl_connect_failed m3 u c) u (fun c => set_st c SOrphan)
                   else m3 in
         (m4, [FDiscReq i (c_dcid c) (c_scid c)])
-      else if bad then (m, [FConfRsp id (c_dcid c) CONF_UNKNOWN_OPTIONS])
+      else if bad then (m, [FConfRsp id (c_dcid c) CONF_UNKNOWN_OPTIONS 0])
       else
         match c_st c with
         | SWaitConfigReqRsp =>
-            (hupd m u (fun c => set_st c SWaitConfigRsp), [FConfRsp id (c_dcid c) 0])
+            (hupd m u (fun c => set_st c SWaitConfigRsp), [FConfRsp id (c_dcid c) 0 1])
         | _ =>  (* SWaitConfigReq *)
             let m1 := wres_opt m (c_cw c) O_RESULT in
-            (hupd m1 u (fun c => set_cw (set_st c SOpen) None), [FConfRsp id (c_dcid c) 0])
+            (hupd m1 u (fun c => set_cw (set_st c SOpen) None), [FConfRsp id (c_dcid c) 0 1])
         end
   end.
 
-Definition recv_conf_rsp (m : mgr) (h id scid result : Z) : mgr * list frame :=
+Definition recv_conf_rsp (m : mgr) (h id scid result sugg : Z) : mgr * list frame :=
   match find_cl m h scid with
   | None => (m, [])
   | Some (u, c) =>
@@ -652,7 +654,10 @@ Definition recv_conf_rsp (m : mgr) (h id scid result : Z) : mgr * list frame :=
         | _ => (m, [])
         end
       else if Z.eqb result CONF_UNACCEPTABLE then
-        (next_id m h, [FConfReq (nid m h) (c_dcid c) (-1) false])
+        (* (after D08) adopt the suggested MTU / FCS value and send a complete Configure Request
+           again; with nothing usable suggested, nothing is sent *)
+        if Z.eqb sugg 0 then (m, [])
+        else (next_id m h, [FConfReq (nid m h) (c_dcid c) (rfc_of_mode (c_mode c)) false])
       else (m, [])
   end.
 
@@ -727,7 +732,7 @@ Definition recv (m : mgr) (h : Z) (f : frame) : mgr * list frame :=
   | FConnReq id psm scid => recv_conn_req m h id psm scid
   | FConnRsp id dcid scid result => recv_conn_rsp m h id dcid scid result
   | FConfReq id dcid rfc bad => recv_conf_req m h id dcid rfc bad
-  | FConfRsp id scid result => recv_conf_rsp m h id scid result
+  | FConfRsp id scid result sugg => recv_conf_rsp m h id scid result sugg
   | FDiscReq id dcid scid => recv_disc_req m h id dcid scid
   | FDiscRsp id dcid scid => recv_disc_rsp m h id dcid scid
   | FLeReq id psm scid credits => recv_le_req m h id psm scid credits
@@ -873,7 +878,9 @@ Definition frame_ok (m : mgr) (h : Z) (f : frame) : bool :=
   | FEnhReq _ _ _ scids => nodupz scids
   | FConnRsp _ _ scid _ => not_le_target m h scid
   | FConfReq _ dcid _ _ => not_le_target m h dcid
-  | FConfRsp _ scid _ => not_le_target m h scid
+  | FConfRsp _ scid _ sugg =>
+      (* a suggestion to switch FCS on is not modelled (the scenario managers do not support FCS) *)
+      not_le_target m h scid && (Z.eqb sugg 0 || Z.eqb sugg 1)
   | FDiscReq _ dcid _ =>
       (* no disconnection request for a channel whose connection request is unanswered *)
       match target_kind m h dcid with
